@@ -204,6 +204,7 @@ impl Scenario for ScheduleScenario {
                 _ => 12_000,
             }));
         }
+        crate::verif::smast::sprinkle_split_replies(rng, &mut script);
         SmastCase {
             cfg,
             chunk: rng.below(5) as u8,
@@ -685,6 +686,23 @@ pub fn analyse(
                             && t.saturating_sub(case.latency.0) + 1 >= due =>
                     {
                         asked = true
+                    }
+                    // a link status check of another association occupies the channel until it is answered or times out
+                    H::LinkRx { t, ctrl, dest, .. }
+                        if ctrl & 0x4F == 0x49
+                            && *dest != a.address
+                            && t.saturating_sub(case.latency.0)
+                                + case
+                                    .cfg
+                                    .assocs
+                                    .iter()
+                                    .find(|x| x.address == *dest)
+                                    .map(|x| x.response_timeout_ms)
+                                    .unwrap_or(5000)
+                                + 1
+                                >= due =>
+                    {
+                        busy = true
                     }
                     _ => {}
                 }
